@@ -14,6 +14,55 @@ CHECKS = {
   note="Trusted: the reference walk in harness/vcore/src/refcanon.rs (its unit test replays n2's documented examples). Bound: length <= 9 (quick) / 11 (thorough) over 5 symbols; longer inputs only via the deep-path family.",
   technique="bounded exhaustive input enumeration against a reference model",
  ),
+
+ "C10": dict(
+  engine="inputs/load",
+  category="exploration",
+  text="Abstract manifests of three families (every presence pattern of the optional sections of a build statement over paths that need every escape; every rule-/build-level placement of the step attributes; every short sequence of statement kinds incl. include/subninja/default/pool/comment/binding) are rendered under the canonical spelling and under every spelling with a bounded number of deviations at the spacing / continuation / `$v`-vs-`${v}` choice points, loaded by the real loader (real include files on tmpfs) and compared field by field with a reference loader and with the canonical spelling's dump. Exhaustive within the stated bounds; the grammar-sized space the property quantifies over is exactly what such an enumeration reaches and hand-written examples do not.",
+  design_ref="DESIGN.md §4 C10",
+  note="Trusted: the reference loader and speller in harness/vcore/src/refmanifest.rs. Bounds: <=1 deviation (quick) / <=2 (thorough) per manifest, all pairs on a shape subset; statement sequences of length <=2 / <=3.",
+  technique="bounded exhaustive input enumeration (abstract manifest x spelling deviations) against a reference loader",
+ ),
+ "C11": dict(
+  engine="inputs/load",
+  category="exploration",
+  text="Eleven binding slots around one build statement (file-level before/after, redefinition, rule-level, build-block, path piece, child-file binding) are each left absent or filled with one of seven expressions that reference x, y, $in, $out in every direction; every assignment with a bounded number of filled slots is loaded with the statement in the main file, in an included file and in a subninja file, followed by a probe statement in the parent, and the evaluated command/description/paths are compared with an independent evaluator that implements the stated lookup chain literally. Exhaustive within the bound.",
+  design_ref="DESIGN.md §4 C11",
+  note="Trusted: eval_file/eval_path/eval_rule in refmanifest.rs. Bound: <=4 (quick) / <=5 (thorough) filled slots. One known finding (include does not extend the includer's scope) is listed in known_findings.txt.",
+  technique="bounded exhaustive input enumeration against a reference evaluator",
+ ),
+ "C12": dict(
+  engine="inputs/total + inputs/depfile",
+  category="exploration",
+  text="Totality by exhaustive enumeration with all runtime checks on (debug assertions, overflow checks, unsafe-precondition checks): every short token sequence over a 26-token Ninja alphabet, every short byte string, every single (thorough: double) token mutation and truncation of ~3700 valid manifests, error-column boundary families over 1-4-byte characters, empty expansions in every path position, 58..66-component paths, every short token sequence as an included/subninja'd file on disk incl. include cycles, every short command-line target string, every short depfile string. Each input must load or be rejected with a well-formed diagnostic. Aborts and hangs kill only a worker shard; the parent attributes them to the input through a shared-memory marker and resumes the shard after it.",
+  design_ref="DESIGN.md §4 C12",
+  note="Trusted: the diagnostic-shape checker. Out-of-bounds reads that no debug assertion or UB check guards are not observable. Bounds: token sequences <=5/6, bytes <=2/3, include content <=3/4 tokens, targets <=6/7, depfile strings <=9/10.",
+  technique="bounded exhaustive input enumeration with crash/hang attribution",
+ ),
+ "C14": dict(
+  engine="inputs/load",
+  category="exploration",
+  text="Every first build statement with 1..3 outputs over six spellings of three locations at every explicit/implicit split, alone and followed by every second statement with 1..2 outputs (same file, included file, or subninja'd before it) and a third statement, is loaded; the reference loader says whether two statements produce one location (then the error must cite both statement locations) or not (then the graph must have unique outputs, a consistent explicit count, and a warning exactly when an output repeats). Exhaustive within the bound.",
+  design_ref="DESIGN.md §4 C14",
+  note="Trusted: refmanifest.rs add_build and refcanon.rs. Stdout of the loader is captured to observe the warning.",
+  technique="bounded exhaustive input enumeration against a reference loader",
+ ),
+ "C15": dict(
+  engine="inputs/depfile",
+  category="exploration",
+  text="Abstract depfiles (up to 3 entries, up to 3 prerequisites incl. Windows-style paths) under every formatting or every formatting with a bounded number of deviations (spaces before the colon, gaps, backslash-newline continuations, blank lines, trailing blanks, final newline) are written to a real file and read by the real read_depfile; the result must be exactly the listed prerequisites in order. All strings up to a length bound over {a,space,:,\\,newline} and a NUL/CR/UTF-8 alphabet are checked for totality, diagnostic shape and that every reported word is a blank-free piece of the input; through the file path, errors must name the depfile.",
+  design_ref="DESIGN.md §4 C15",
+  note="Trusted: the formatting generator in refdepfile.rs. Bounds: <=2/3 formatting deviations for multi-entry files, strings <=9/10.",
+  technique="bounded exhaustive input enumeration (abstract depfile x formattings) against the abstract content",
+ ),
+ "C20": dict(
+  engine="inputs/render",
+  category="exploration",
+  text="The render helpers of the fancy progress display are called for every terminal width 10..300, 15 elapsed times across every digit count, messages that place a 1/2/3/4-byte character at every offset around the cut index, every short string over {a,é,€,😀}, every alignment for truncate, every count vector up to a bound for progress_bar, and whole frames through the real print_progress at forced widths; the result must not panic, must stay within the width at a character boundary and the bar must have its nominal width. Exhaustive within the bounds, which cover every residue of the byte arithmetic involved.",
+  design_ref="DESIGN.md §4 C20",
+  note="Not covered: the Mutex/Condvar/timeout protocol of the display thread (not modelled by loom); the consequence of a render panic for the build is argued from the code (the helpers are the only fallible code on that thread).",
+  technique="bounded exhaustive input enumeration with invariant oracle",
+ ),
 }
 
 NOT_YET = {}
